@@ -150,6 +150,52 @@ def replay_pass_order(strat, c0, c1, c2, o0, o1, o2, o3, o4, n):
   return _pass_order(L.real_cache, strat, c0, c1, c2, [o0, o1, o2, o3, o4][:n])
 
 
+def _influx(mod, strat, c0, c1, c2, ra, k, nd):
+  """A pass is under way (one metric drained) when the drained metric gets `ra` more datapoints and `k`
+  metrics with NEW names show up; whatever the numbers, the metrics that were waiting when the pass began
+  are drained before anything is drained a second time or ahead of them."""
+  cache = _fill(mod, strat, [c0, c1, c2], 10 ** 6, 0)
+  pending = _nonempty(cache)
+  if len(pending) < 2:
+    return True
+  metric, batch = cache.drain_metric()
+  if metric not in pending or not batch:
+    return False
+  pending.remove(metric)
+  nxt = 50
+  for _ in range(ra):
+    cache.store(metric, (BASE[metric] + nxt, nxt))
+    nxt += 1
+  for j in range(k):
+    cache.store(['new0', 'new1', 'new2', 'new3'][j], (400 + nxt, nxt))
+    nxt += 1
+  cover('influx')
+  for _ in range(nd):
+    if not pending:
+      pending = _nonempty(cache)          # the next pass begins
+      if not pending:
+        break
+    m, b = cache.drain_metric()
+    if m not in pending or not b:
+      raise AssertionError('%r drained while %r (present when the pass began) still wait' % (m, pending))
+    pending.remove(m)
+  return True
+
+
+def C17_influx(strat: int, c0: int, c1: int, c2: int, ra: int, k: int, nd: int) -> bool:
+  """
+  pre: strat == 1 or strat == 3 or strat == 4
+  pre: 0 <= c0 <= 2 and 0 <= c1 <= 2 and 0 <= c2 <= 2
+  pre: 0 <= ra <= 3 and 0 <= k <= 4 and 1 <= nd <= 3
+  post: __return__
+  """
+  return _influx(L.SHADOW, strat, c0, c1, c2, ra, k, nd)
+
+
+def replay_influx(strat, c0, c1, c2, ra, k, nd):
+  return _influx(L.real_cache, strat, c0, c1, c2, ra, k, nd)
+
+
 def _lag(mod, c0, c1, c2, now, lag, ndrains):
   cache = _fill(mod, 4, [c0, c1, c2], now, lag)
   # lag 0 means no filter at all: even datapoints stamped ahead of the writer's clock are drained
@@ -221,6 +267,11 @@ HARNESSES = [
     encodes=['carbon.cache:NaiveStrategy', 'carbon.cache:SortedStrategy', 'carbon.cache:TimeSortedStrategy',
              'carbon.cache:_MetricCache.drain_metric', 'carbon.cache:_MetricCache.store'],
     assumptions=_ASSUME + ['<= 4 (quick) / 5 (thorough) operations drain / store-new-datapoint on top of the symbolic fill']),
+  H('C17_influx', quick=dict(timeout=280, shards=[('s%d' % st, 'strat == %d' % st) for st in (1, 3, 4)], extra_pre=['c2 <= 1', 'nd <= 2']),
+    thorough=dict(timeout=900, shards=[('s%d_k%d' % (st, kk), 'strat == %d and k == %d' % (st, kk)) for st in (1, 3, 4) for kk in range(5)]),
+    covers=['influx'], replay='replay_influx',
+    encodes=['carbon.cache:NaiveStrategy', 'carbon.cache:SortedStrategy', 'carbon.cache:TimeSortedStrategy', 'carbon.cache:_MetricCache.drain_metric', 'carbon.cache:_MetricCache.store'],
+    assumptions=_ASSUME + ['symbolic fill of 3 metrics, one drain, then 0-3 new datapoints for the drained metric and 0-4 metrics with new names, then 1-3 drains']),
   H('C17_lag', quick=dict(timeout=240), thorough=dict(timeout=600), covers=['idle', 'drained'], replay='replay_lag',
     encodes=['carbon.cache:TimeSortedStrategy (MIN_TIMESTAMP_LAG filter)', 'carbon.cache:_MetricCache.drain_metric'],
     assumptions=_ASSUME + ['clock reading and MIN_TIMESTAMP_LAG are unbounded symbolic ints; the clock does not advance within the harness']),
